@@ -519,7 +519,7 @@ func runC19(c *Ctx) {
 	// paths that designate nothing in Rec: a search on them cannot be evaluated
 	noSuchField := map[string]bool{"Nope": true, "": true, "In.": true, ".A": true, "A.B": true, "In.Tag.X": true, "Emb.e": true, "In.tag": true, "Item.uuid": true, "S.S": true, "T.wall": true, "Emb.E.E": true, "A.": true, "K.K.K": true}
 	fields = append(fields, "S.S", "T.wall", "Emb.E.E", "A.", "K.K.K")
-	ops := []string{"=", "!=", "<", "<=", ">", ">=", "~=", "<>", "", "==", "and"}
+	ops := []string{"=", "!=", "<", "<=", ">", ">=", "~=", "<>", "", "==", "and", " =", "= ", "\t<", " >= ", "~= ", "=\n", "!", "=~"}
 	one := 1
 	values := []interface{}{int(1), int8(1), int16(1), int32(1), int64(1), uint(1), uint8(1), uint16(1), uint32(1), uint64(1), float32(1), 1.5, "x", "(", "", true, nil, []int{1}, map[string]int{"a": 1}, struct{ X int }{1}, &one, tabT[1], &Rec{}, []byte("x"), 'r', complex(1, 1)}
 	for _, cfg := range []Cfg{{}, {Index: 1}, {Index: 2, Cache: true}} {
@@ -552,6 +552,18 @@ func runC19(c *Ctx) {
 								s.Operation("xor", f, op, v)
 								var recs []*Rec
 								s.Assign(&recs)
+								// every limit, then every terminal operation
+								for _, lim := range []uint64{0, 1, 2, 1 << 62, ^uint64(0)} {
+									sl := w.DB.Search(&Rec{}, f, op, v).Limit(lim)
+									sl.One()
+									var r1 *Rec
+									sl.AssignOne(&r1)
+									sl = w.DB.Search(&Rec{}, f, op, v).Limit(lim).Reverse()
+									var r2 *Rec
+									sl.AssignUnique(&r2)
+									sl.Collect()
+									sl.Len()
+								}
 							})
 							c.Count("evaluations", 1)
 							if p != "" {
@@ -574,7 +586,7 @@ func runC19(c *Ctx) {
 	}
 	c.Sample(map[string]interface{}{"mutation_kinds": []string{"trunc", "subst", "tree", "tree2", "stray"}, "substitution_bytes": substBytes, "fields": fields, "operators": ops})
 	c.Meta(map[string]interface{}{
-		"rule":        "files: for every base database, schema.json and every object file: every truncation length, every single-byte substitution from a 12-byte set at every offset, every single JSON-tree mutation (each node replaced by each of 13 values, each key/element deleted, each array element duplicated; compressed files are mutated both as gzip bytes and as JSON then recompressed; thorough: all pairs of tree mutations inside the index subtree), stray files and sub-directories (names without a dot, without extension, uuid-like, directories in place of files); arguments: 23 field paths x 11 operators x 26 value kinds on empty and non-empty collections under three index configurations, also as And/Or refinements. Each case: fresh handle, the public call set (first load, Control, Get, Exist, Count, All, 7 searches with Collect/Assign/One/And/Or, AssignIndex, inserts, update, batch, Delete, Repair, DeleteAll, Create, Close), every call under recover. Oracle: no panic, no hang (30 s wall watchdog per case, reported as a hang), no objects from a search that reported an error. states = distinct mutated directories; non-trivial = all but the unmodified control case.",
+		"rule":        "files: for every base database, schema.json and every object file: every truncation length, every single-byte substitution from a 12-byte set at every offset, every single JSON-tree mutation (each node replaced by each of 13 values, each key/element deleted, each array element duplicated; compressed files are mutated both as gzip bytes and as JSON then recompressed; thorough: all pairs of tree mutations inside the index subtree), stray files and sub-directories (names without a dot, without extension, uuid-like, directories in place of files); arguments: 32 field paths x 19 operators (padded and near-miss spellings included) x 26 value kinds, each also under limits {0,1,2,2^62,max} with One/AssignOne/AssignUnique/Collect on empty and non-empty collections under three index configurations, also as And/Or refinements. Each case: fresh handle, the public call set (first load, Control, Get, Exist, Count, All, 7 searches with Collect/Assign/One/And/Or, AssignIndex, inserts, update, batch, Delete, Repair, DeleteAll, Create, Close), every call under recover. Oracle: no panic, no hang (30 s wall watchdog per case, reported as a hang), no objects from a search that reported an error. states = distinct mutated directories; non-trivial = all but the unmodified control case.",
 		"bases":       len(bases),
 		"assumptions": []string{"the documented misuse of Assign/AssignIndex targets is not exercised", "one mutation per file (thorough: two inside the index subtree)"},
 	})
